@@ -253,6 +253,9 @@ def impl_oracle(c):
     if c["op"] == "tread":
         if o.get("err") == "hang":
             return "tunnel.Read did not return within 10 s"
+        if o.get("err") == "outside":
+            return ("tunnel.Read into a %d-byte window (capacity reaching 48 KiB further) of a sentinel-filled page: the "
+                    "reply of %d bytes changed memory outside the window" % (c["buflen"], c["replen"]))
         if o.get("err") == "ok" and o.get("n", 0) > c["buflen"]:
             return "tunnel.Read returned more bytes than the buffer holds: n=%d for a %d-byte buffer" % (o["n"], c["buflen"])
         return None
